@@ -197,8 +197,42 @@ func runC01(c *runCtx) {
 		"SELECT SUBSTRING(a FROM", "SELECT a FROM t FETCH FIRST", "SELECT a FROM t FOR", "SELECT a NOT", "SELECT NOT", "SELECT -", "SELECT (", "(", ")", ";", ";;;", "SELECT 1;;SELECT 2", "EXPLAIN", "SELECT a FROM t TABLESAMPLE"} {
 		run("cut-statement", []byte(s), 20*time.Second)
 	}
+	// every statement of the catalogue and the repository corpus cut after each word, alone and followed by a
+	// token that often introduces a sub-production
+	ddl := []string{
+		"CREATE TABLE s.t (id INT PRIMARY KEY, name VARCHAR(10) NOT NULL DEFAULT 'x', CONSTRAINT c UNIQUE (name), FOREIGN KEY (id) REFERENCES u (id) ON DELETE CASCADE)",
+		"CREATE TABLE IF NOT EXISTS t (a INT) PARTITION BY RANGE (a)", "CREATE INDEX CONCURRENTLY i ON s.t USING btree (a DESC, b) WHERE a > 1", "CREATE UNIQUE INDEX i ON t (a)",
+		"CREATE OR REPLACE VIEW v (a, b) AS SELECT a, b FROM t", "CREATE MATERIALIZED VIEW IF NOT EXISTS mv AS SELECT a FROM t WITH NO DATA", "REFRESH MATERIALIZED VIEW CONCURRENTLY mv",
+		"ALTER TABLE s.t ADD COLUMN c INT NOT NULL", "ALTER TABLE t DROP COLUMN IF EXISTS c CASCADE", "ALTER TABLE t RENAME TO s.u", "ALTER TABLE t RENAME COLUMN a TO b", "ALTER TABLE t ALTER COLUMN a SET DEFAULT 1",
+		"ALTER TABLE t ADD CONSTRAINT c CHECK (a > 0)", "ALTER TABLE t DROP CONSTRAINT c", "DROP TABLE IF EXISTS s.t, u CASCADE", "DROP INDEX i", "DROP VIEW v", "TRUNCATE TABLE s.t, u RESTART IDENTITY CASCADE",
+		"MERGE INTO t a USING u b ON a.i = b.i WHEN MATCHED AND b.x > 1 THEN UPDATE SET c = b.c WHEN NOT MATCHED THEN INSERT (c) VALUES (b.c) WHEN NOT MATCHED BY SOURCE THEN DELETE",
+		"INSERT INTO t (a) VALUES (1) ON CONFLICT ON CONSTRAINT c DO NOTHING", "INSERT INTO t (a) VALUES (1) ON DUPLICATE KEY UPDATE a = 2", "REPLACE INTO t (a) VALUES (1)",
+		"SELECT a FROM t FETCH FIRST 5 ROWS WITH TIES", "SELECT a FROM t FOR UPDATE OF t NOWAIT", "SELECT a FROM t FOR SHARE SKIP LOCKED", "SELECT DISTINCT ON (a) a FROM t",
+		"SELECT a, SUM(b) OVER w FROM t WINDOW w AS (PARTITION BY a ORDER BY b ROWS BETWEEN 1 PRECEDING AND 1 FOLLOWING)", "SELECT LISTAGG(a, ',') WITHIN GROUP (ORDER BY a) FROM t",
+		"SELECT a FROM t GROUP BY CUBE (a, b), ROLLUP (c), GROUPING SETS ((a), ())", "SELECT ARRAY[1, 2][1], a[1:2], ROW(1, 2), INTERVAL '1' DAY, a::int[], a -> 'k' ->> 'j', a @> b FROM t",
+		"SELECT a FROM t TABLESAMPLE BERNOULLI (10)", "SELECT * FROM t PIVOT (SUM(a) FOR b IN ('x', 'y'))", "SELECT a FROM t MATCH_RECOGNIZE (PARTITION BY a)", "WITH RECURSIVE c (n) AS (SELECT 1 UNION ALL SELECT n + 1 FROM c) SELECT n FROM c",
+		"SELECT MATCH (a, b) AGAINST ('x' IN BOOLEAN MODE) FROM t", "SELECT a FROM t WHERE a REGEXP 'x' AND b RLIKE 'y'", "DESCRIBE t", "SHOW TABLES", "EXPLAIN ANALYZE SELECT 1", "SET x = 1", "USE db",
+		"SELECT a FROM t1 NATURAL JOIN t2 CROSS JOIN t3 FULL OUTER JOIN t4 USING (a, b)", "SELECT EXTRACT(YEAR FROM a), POSITION('x' IN a), SUBSTRING(a FROM 1 FOR 2), TRIM(BOTH 'x' FROM a), CAST(a AS DECIMAL(10, 2)) FROM t",
+	}
+	cuts := 0
+	for _, stmt := range append(ddl, repoCorpus()...) {
+		words := strings.Fields(stmt)
+		if len(words) > 120 {
+			words = words[:120]
+		}
+		for j := 1; j <= len(words); j++ {
+			if c.quick && (j*7+len(words))%3 != 0 && j != len(words) && j != len(words)-1 {
+				continue
+			}
+			prefix := strings.Join(words[:j], " ")
+			run("cut", []byte(prefix), 20*time.Second)
+			run("cut+", []byte(prefix+" "+rb.Pick([]string{".", "(", ",", "AS", "TO", "=", "'x'", "1", ")", "s.", "::", "[", "NOT", "*"})), 20*time.Second)
+			run("cut.", []byte(prefix+"."), 20*time.Second)
+			cuts++
+		}
+	}
 	// deep and long shapes
-	for _, d := range []int{50, 99, 100, 101, 150, 2000, c.n(20000, 500000)} {
+	for _, d := range []int{50, 99, 100, 101, 150, 2000, c.n(300000, 800000)} {
 		run("deep-not", []byte("SELECT "+strings.Repeat("NOT ", d)+"a"), time.Minute)
 		run("deep-paren", []byte("SELECT "+strings.Repeat("(", d)+"1"+strings.Repeat(")", d)), time.Minute)
 		run("deep-subquery", []byte(strings.Repeat("SELECT (", d)+"1"+strings.Repeat(")", d)), time.Minute)
